@@ -6,6 +6,8 @@ spec = {
   "edges": [[class-name, i, j, tag], ...],      # created in this order
   "uni":   [i, ...] | None,                     # universe members in order
   "attrs": {"<i>": {name: value}},              # optional extra attributes
+  "extra": [[k, i], ...],                       # edge k additionally lists vertex i (not one of its ends)
+  "uni_gone": [[i, "u"|"v"], ...],              # non-members that were members once and left (universe / vertex side)
 }
 """
 
@@ -61,15 +63,29 @@ def build(spec) -> Built:
             g.verts[i], g.verts[j], attributes={"tag": tag, "eidx": k}
         )
         g.edges.append(e)
+    for k, i in spec.get("extra") or []:
+        # a two-ended link that also lists a further vertex (Link.add_vertex): its ends stay v1 / v2
+        if k < len(g.edges):
+            g.edges[k].add_vertex(g.verts[i])
     if spec.get("uni") is not None:
         g.uni = zoo.FalsyUniverse() if spec.get("uni_cls") == "FalsyUniverse" else zoo.Universe()
+        # former members: they joined first and left again (from the universe's or from their own side) once
+        # everybody was in; the final membership and its order are exactly spec["uni"]
+        gone = [x for x in (spec.get("uni_gone") or []) if x[0] not in spec["uni"] and x[0] < len(g.verts)]
+        for i, _side in gone:
+            g.uni.add_vertex(g.verts[i])
         for i in spec["uni"]:
             g.uni.add_vertex(g.verts[i])
+        for i, side in gone:
+            if side == "v":
+                g.verts[i].remove_from_universe(g.uni)
+            else:
+                g.uni.remove_vertex(g.verts[i])
     return g
 
 
 VCLS_PLAIN = ["Vertex"]
-VCLS_MIX = ["Vertex", "Vertex", "VSub", "VSubSub", "FalsyVertex", "EmptyVertex", "Universe", "VBoth", "VFancy", "StrVertex"]
+VCLS_MIX = ["Vertex", "Vertex", "VSub", "VSubSub", "FalsyVertex", "EmptyVertex", "Universe", "VBoth", "VFancy", "StrVertex", "VSlots"]
 ECLS_DU = ["DirectedEdge", "UnDirectedEdge", "DSub", "DSubSub", "USub", "MixEdge", "FalsyEdge", "RenamedEdge", "PosOnlyEdge"]
 ECLS_ALL = ECLS_DU + ["OtherLink", "OtherLink2", "TwoEndedLink"]
 
@@ -103,6 +119,8 @@ def features(spec) -> set:
         for ed in spec["edges"]:
             if (ed[1] in members) != (ed[2] in members):
                 f.add("bridge_out_of_universe")
+        if spec.get("uni_gone"):
+            f.add("former_members")
     return f
 
 
@@ -124,6 +142,8 @@ def rand_spec(rng: random.Random, nmax=6, mmax=12, vcls=VCLS_MIX, ecls=ECLS_ALL,
     spec = {"verts": verts, "edges": edges, "uni": uni}
     if uni is not None and rng.random() < 0.25:
         spec["uni_cls"] = "FalsyUniverse"
+    if uni is not None and len(set(uni)) < n and rng.random() < 0.4:
+        spec["uni_gone"] = [[i, rng.choice("uv")] for i in range(n) if i not in uni and rng.random() < 0.7]
     if rng.random() < 0.25:
         # distinct vertices sharing a uid (two loads of one pickle, record ids reused as uids, ...)
         spec["uids"] = {str(i): rng.randint(1, 2) for i in range(n) if rng.random() < 0.7}
@@ -185,6 +205,10 @@ def family_specs(rng: random.Random, sizes=(4, 7, 12), ecls=ECLS_DU, vcls=VCLS_P
         # universe cuts the graph in the middle
         cut = [i for i in range(n) if i != n // 2]
         out.append({"verts": V, "edges": [E(i, i + 1) for i in range(n - 1)] + [E(0, n - 1)], "uni": cut})
+        # ... and the vertex in the middle was a member until it left from its own / from the universe's side
+        for side in "vu":
+            out.append({"verts": V, "edges": [E(i, i + 1) for i in range(n - 1)] + [E(0, n - 1)], "uni": cut,
+                        "uni_gone": [[n // 2, side]]})
     return out
 
 
